@@ -45,7 +45,7 @@ type byzMut struct {
 var byzClasses = []string{"ROWS tok", "ROWS schema", "PREPARED schema", "SUPPORTED", "READY", "PREPARED", "ERROR(", "VOID", "ROWS(local)", "ROWS(peers)", "EVENT",
 	"AUTHENTICATE", "AUTH_SUCCESS", "SET_KEYSPACE", "ROWS(schema_version)", "ANY"}
 
-const byzMutKinds = 13
+const byzMutKinds = 14
 
 // panicSite extracts the first driver function below the panic from a stack dump.
 func panicSite(stack string) string {
@@ -442,12 +442,20 @@ func byzFinish(k *kernel.Kernel, cl *node.Cluster, sess *gocql.Session, ms0 *run
 	}
 	var ms1 runtime.MemStats
 	runtime.ReadMemStats(&ms1)
+	switch mb := (ms1.TotalAlloc - ms0.TotalAlloc) >> 20; {
+	case mb >= 64:
+		k.Probe("alloc>=64MiB")
+	case mb >= 16:
+		k.Probe("alloc>=16MiB")
+	case mb >= 4:
+		k.Probe("alloc>=4MiB")
+	}
 	// the allocation clause of the property is about uncompressed data (a compressed block
 	// states its own decoded size); and a frame header may announce up to the protocol's 256 MiB frame limit and the driver
 	// allocates the announced body before reading it: that is the frame limit at work, not
 	// a parser trusting a count, so runs whose mutation made the header lie are exempt
-	if grown := ms1.TotalAlloc - ms0.TotalAlloc; grown > 256<<20 && k.Violation() == nil && !headerLied(k) && !compressedRun {
-		k.Violate("C05", "C05/wild-allocation", "the run allocated %d MiB in total although the node sent only small uncompressed frames", grown>>20)
+	if grown := ms1.TotalAlloc - ms0.TotalAlloc; grown > 64<<20 && k.Violation() == nil && !headerLied(k) && !compressedRun {
+		k.Violate("C05", "C05/wild-allocation", "the run allocated %d MiB in total although the node sent only small uncompressed frames with truthful headers", grown>>20)
 	}
 }
 
@@ -507,7 +515,7 @@ func byzMutate(tp *kernel.Tape, sc *node.SConn, kind int, frame []byte) (out []b
 		}
 		o := hs + tp.Next(body-3)
 		orig := int32(binary.BigEndian.Uint32(f[o:]))
-		v := []int32{-1, 0, 1, 0x7fffffff, -0x80000000, orig + 1, orig - 1, 65536, -2}[tp.Next(9)]
+		v := []int32{-1, 0, 1, 0x7fffffff, -0x80000000, orig + 1, orig - 1, 65536, -2, 2, 3, 4, 5, 6, 8, 16, 255, 256, 0x00ffffff, 0x0fffffff}[tp.Next(20)]
 		binary.BigEndian.PutUint32(f[o:], uint32(v))
 		return f, false, "poison-int"
 	case 3: // poison a 2-byte field
@@ -531,7 +539,21 @@ func byzMutate(tp *kernel.Tape, sc *node.SConn, kind int, frame []byte) (out []b
 		if h.Version == 5 {
 			r.ExtraFlags = cqlspec.FlagBeta
 		}
-		switch tp.Next(11) {
+		switch tp.Next(13) {
+		case 11: // rows without metadata, although nobody asked to skip it
+			r.Op, r.Kind = cqlspec.OpResult, cqlspec.KindRows
+			r.Rows = &cqlspec.RowsMeta{NoMetadata: true, ColumnCount: 1 + tp.Next(3)}
+			for i := tp.Next(3); i > 0; i-- {
+				row := make([]cqlspec.Cell, r.Rows.ColumnCount)
+				for j := range row {
+					row[j] = cqlspec.Cell{Bytes: []byte{0, 0, 0, byte(j)}}
+				}
+				r.RowData = append(r.RowData, row)
+			}
+		case 12: // rows with metadata and a paging state
+			r.Op, r.Kind = cqlspec.OpResult, cqlspec.KindRows
+			r.Rows = &cqlspec.RowsMeta{GlobalSpec: true, HasMorePages: true, PagingState: []byte("x"), Columns: []cqlspec.ColSpec{{Keyspace: "k", Table: "t", Name: "c", Type: cqlspec.ColType{ID: cqlspec.TInt}}}}
+			r.RowData = [][]cqlspec.Cell{{{Bytes: []byte{0, 0, 0, 1}}}}
 		case 0:
 			r.Op = cqlspec.OpReady
 		case 1:
@@ -594,6 +616,17 @@ func byzMutate(tp *kernel.Tape, sc *node.SConn, kind int, frame []byte) (out []b
 		return f, false, "length-lie"
 	case 11: // the same reply twice
 		return append(f, frame...), false, "duplicate"
+	case 12: // toggle one low bit of one of the first three ints of the body (kinds, flags, counts)
+		if body < 4 {
+			return f, false, "none"
+		}
+		n := body / 4
+		if n > 3 {
+			n = 3
+		}
+		o := hs + 4*tp.Next(n)
+		f[o+3] ^= 1 << uint(tp.Next(5))
+		return f, false, "flag-bit"
 	default: // garbage body behind a plausible header
 		for i := hs; i < len(f); i++ {
 			f[i] = byte(tp.Next(256))
@@ -604,5 +637,7 @@ func byzMutate(tp *kernel.Tape, sc *node.SConn, kind int, frame []byte) (out []b
 
 func headerLied(k *kernel.Kernel) bool {
 	f := k.Finish().Faults
-	return f["byz.version-byte"] > 0 || f["byz.length-lie"] > 0
+	// a truncated frame shifts the frame boundaries for what follows, which has the same
+	// effect as a lying length
+	return f["byz.version-byte"] > 0 || f["byz.length-lie"] > 0 || f["byz.truncate-stall"] > 0 || f["byz.truncate-close"] > 0
 }
